@@ -40,7 +40,8 @@ func statsToSimkit(w *chainsim.World) {
 	sort.Strings(keys)
 	for _, k := range keys {
 		switch k {
-		case "crash_inside_step", "byz_serving_unlinked_block", "byz_lying_common_block", "gossip_topic_blackout", "gossip_dropped", "gossip_duplicated", "gossip_cut", "rpc_timeout", "rpc_error", "rpc_truncated", "rpc_bitflip", "crash", "restart", "partition", "heal", "ban":
+		case "crash_inside_step", "byz_serving_unlinked_block", "byz_lying_common_block", "gossip_topic_blackout", "gossip_dropped", "gossip_duplicated", "gossip_cut", "rpc_timeout", "rpc_error", "rpc_truncated", "rpc_bitflip", "crash", "restart", "partition", "heal", "ban",
+			"clock_skew", "clock_jump_backwards", "clock_jump_forwards", "node_stalled", "rpc_to_stalled_node", "gossip_held_for_stalled_node":
 			simkit.FaultN(k, w.S.Stats[k])
 		default:
 			simkit.Count(k, int64(w.S.Stats[k]))
@@ -75,6 +76,15 @@ func TestC02(t *testing.T) {
 
 func runC02(t *rapid.T) {
 	faultFree := simkit.Bool(t, "faultfree")
+	if !faultFree && simkit.Bool(t, "fullfaults") {
+		// the whole fault repertoire of the other chain checks: partitions, crashes (also inside a step), clock skew
+		// and jumps, stalls, sync RPC faults, in half of these runs a Byzantine adversary; the counting oracle follows
+		// every block every node applies, whatever route it took
+		runHonest(t, runCfg{prop: "C02", opts: chainsim.WorldOpts{Nodes: [2]int{2, 5}, Transactions: true, Validators: [2]int{4, 9}, Byzantine: simkit.Bool(t, "byzantine"), ValidatorChanges: true, NetFaults: true, RPCFaults: true, SmallCache: true},
+			faults: chainsim.FaultPlan{Partitions: true, Crashes: true, Skew: true}, blocks: [2]int{10, 110},
+			tail: func(w *chainsim.World, m *chainsim.Monitor, adv *chainsim.Adversary) { sameTipSameHeights(w, m) }}, nil)
+		return
+	}
 	opts := chainsim.WorldOpts{Nodes: [2]int{2, 5}, Validators: [2]int{4, 9}, ValidatorChanges: true, NetFaults: !faultFree, SmallCache: true}
 	w := chainsim.DrawWorld(t, opts)
 	defer w.Shutdown()
@@ -85,7 +95,19 @@ func runC02(t *rapid.T) {
 	blocks := simkit.Int(t, "blocks", 10, 120)
 	w.S.Run(time.Duration(blocks)*w.BlockTime, 400000, nil)
 	m.Raise()
-	// every view with the same tip reports the same heights and next parameters
+	sameTipSameHeights(w, m)
+	// liveness in fault-free round-robin runs: a block is final once enough later blocks exist
+	if faultFree {
+		checkFaultFreeFinality(t, w, m)
+	}
+	statsToSimkit(w)
+	simkit.DetLog("%s | %s", w.Describe(), tipsSummary(w))
+	simkit.Distinct(w.Describe(), tipsSummary(w))
+	simkit.Sample(map[string]interface{}{"world": w.Describe(), "end": tipsSummary(w), "fault_free": faultFree})
+}
+
+// sameTipSameHeights: every view with the same tip reports the same heights.
+func sameTipSameHeights(w *chainsim.World, m *chainsim.Monitor) {
 	byTip := map[string]*chainsim.Node{}
 	for _, n := range w.S.Nodes {
 		if !n.Up {
@@ -98,18 +120,12 @@ func runC02(t *rapid.T) {
 			if a1 != a2 || b1 != b2 || c1 != c2 {
 				m.Report("C02", "agreement", "heights", fmt.Sprintf("%s and %s have the same tip but report heights (%d,%d,%d) and (%d,%d,%d)", n.Name, o.Name, a1, b1, c1, a2, b2, c2))
 			}
+			simkit.Probe("same_tip_heights_compared")
 		} else {
 			byTip[id] = n
 		}
 	}
-	// liveness in fault-free round-robin runs: a block is final once enough later blocks exist
-	if faultFree {
-		checkFaultFreeFinality(t, w, m)
-	}
-	statsToSimkit(w)
-	simkit.DetLog("%s | %s", w.Describe(), tipsSummary(w))
-	simkit.Distinct(w.Describe(), tipsSummary(w))
-	simkit.Sample(map[string]interface{}{"world": w.Describe(), "end": tipsSummary(w), "fault_free": faultFree})
+	m.Raise()
 }
 
 // In a fault-free run every slot is filled by its generator on one chain. A block at height h is final once the
@@ -226,7 +242,8 @@ func runHonest(t *rapid.T, c runCfg, extra func(w *chainsim.World, m *chainsim.M
 	blocks := simkit.Int(t, "blocks", c.blocks[0], c.blocks[1])
 	horizon := time.Duration(blocks) * w.BlockTime
 	// swarm: each run enables a drawn subset of the fault kinds the property allows
-	plan := chainsim.FaultPlan{Partitions: c.faults.Partitions && simkit.Bool(t, "usepartitions"), Crashes: c.faults.Crashes && simkit.Bool(t, "usecrashes"), Skew: c.faults.Skew && simkit.Bool(t, "useskew")}
+	plan := chainsim.FaultPlan{Partitions: c.faults.Partitions && simkit.Bool(t, "usepartitions"), Crashes: c.faults.Crashes && simkit.Bool(t, "usecrashes"), Skew: c.faults.Skew && simkit.Bool(t, "useskew"), LongOutage: c.faults.LongOutage,
+		Jumps: c.faults.Skew && simkit.Chance(t, "usejumps", 1, 3), Stalls: c.faults.Crashes && simkit.Chance(t, "usestalls", 1, 3)}
 	w.ScheduleFaults(plan, horizon)
 	if extra != nil {
 		extra(w, m)
